@@ -258,10 +258,17 @@ func isContainEndpoint(endpoints []*service.Endpoint, endpoint *service.Endpoint
 }
 
 func (c *Config) emitSvcAddEvent(sw *serviceWrapper) {
+	// the event gets its own copy: the store keeps modifying its slice in place
+	// while the event waits in the queue and while the controller reads it.
+	endpoints := make([]*service.Endpoint, len(sw.Endpoints))
+	copy(endpoints, sw.Endpoints)
+	if sw.Endpoints == nil {
+		endpoints = nil
+	}
 	evt := &SvcAddEvent{
 		Name:      sw.Service.Name,
 		Config:    sw.Config,
-		Endpoints: sw.Endpoints,
+		Endpoints: endpoints,
 	}
 	c.evtCh <- evt
 }
